@@ -708,6 +708,15 @@ int main(int argc, char** argv)
     // SourceMap for damping and diffusion
     SourceMap* fpm;
     if (e1 > 0) {
+        // the cubic stencil changes direction at the zero-energy mesh point
+        const auto zerobin = grid_t1->getAxis(1)->zerobin();
+        if ( derivationtype == FokkerPlanckMap::DerivationType::cubic
+          && !(zerobin >= 1 && zerobin <= ps_bins-2)) {
+            Display::printText("Zero energy has to lie on the grid (one mesh "
+                               "point above its lower, two below its upper "
+                               "edge). Will now quit.");
+            return EXIT_SUCCESS;
+        }
         Display::printText("Building FokkerPlanckMap.");
         fpm = new FokkerPlanckMap( grid_t3,grid_t1,ps_bins,ps_bins
                                  , fptype,fptrack,e1, derivationtype, oclh
